@@ -93,7 +93,7 @@ def check(rec, st):
             deliver[i] = dl
             sids[i] = sid.hex()
     for i, e in enumerate(ends):
-        if deliver[1 - i] is not None:
+        if e["impl"] != "manual" and deliver[1 - i] is not None:
             _cmp_delivered(st, case, i, e["got"], deliver[1 - i])
     # session ids as reported by the transports
     for i, e in enumerate(ends):
@@ -110,8 +110,8 @@ def check(rec, st):
             if t["impl"] == "v2":
                 if not ok:
                     st.violation("tampered-stream-delivered-different-message", "tampered v2 stream delivered a message that was not sent", {"pos": pos, "bit": bit}, case)
-                elif delivered >= t["total"]:
-                    st.violation("tampered-stream-fully-delivered", "tampered v2 stream was delivered completely", {"pos": pos, "bit": bit}, case)
+                elif delivered >= t["total"] and not err:
+                    st.violation("tampered-stream-fully-delivered", "tampered v2 stream was delivered completely and no error was reported", {"pos": pos, "bit": bit}, case)
                 st.seen("tamper_trials_checked")
             else:
                 if not ok:
